@@ -54,6 +54,121 @@ type mstate struct {
 // what the search knows about the run: the logs of the routines that reported
 type guide struct {
 	want [][]logEntry // nil: unknown (routine did not report)
+	// for channel c: value -> (routine, index among the routine's entries of channel c), for values that
+	// occur exactly once in the reported logs of channel c
+	owner []map[int64][2]int
+	// pre[i][c][lp]: entries of channel c among the first lp entries of routine i's log
+	pre [][][]int
+}
+
+// staticUnique: for channel c, the literal values pushed by exactly one operation of the program; nil when
+// some push on c sends a computed value (got / acc)
+func staticUnique(p *Prog) []map[int64]bool {
+	n := len(p.Caps)
+	cnt := make([]map[int64]int, n)
+	dyn := make([]bool, n)
+	for c := range cnt {
+		cnt[c] = map[int64]int{}
+	}
+	var walk func(ops []Op)
+	walk = func(ops []Op) {
+		for i := range ops {
+			o := &ops[i]
+			if o.Kind == "push" && o.C < n {
+				if o.E.Kind == "lit" {
+					cnt[o.C][o.E.Z]++
+				} else {
+					dyn[o.C] = true
+				}
+			}
+			walk(o.Body)
+		}
+	}
+	for _, r := range p.Code {
+		walk(r)
+	}
+	out := make([]map[int64]bool, n)
+	for c := range out {
+		if dyn[c] {
+			continue
+		}
+		out[c] = map[int64]bool{}
+		for v, k := range cnt[c] {
+			if k == 1 {
+				out[c][v] = true
+			}
+		}
+	}
+	return out
+}
+
+// newGuide: strict[c] = every entry ever queued on c is known to be received by a reporting routine
+// (all routines reported and the channel ended empty); otherwise only statically unique literals are tracked
+func newGuide(want [][]logEntry, nch int, strict []bool, uniq []map[int64]bool) *guide {
+	g := &guide{want: want, owner: make([]map[int64][2]int, nch), pre: make([][][]int, len(want))}
+	count := make([]map[int64]int, nch)
+	for c := range count {
+		count[c] = map[int64]int{}
+		g.owner[c] = map[int64][2]int{}
+	}
+	for i, w := range want {
+		g.pre[i] = make([][]int, nch)
+		for c := 0; c < nch; c++ {
+			g.pre[i][c] = make([]int, len(w)+1)
+		}
+		for k, e := range w {
+			for c := 0; c < nch; c++ {
+				g.pre[i][c][k+1] = g.pre[i][c][k]
+			}
+			if e.Tag >= 0 && e.Tag < nch {
+				if !e.Nil {
+					count[e.Tag][e.Val]++
+					g.owner[e.Tag][e.Val] = [2]int{i, g.pre[i][e.Tag][k]}
+				}
+				g.pre[i][e.Tag][k+1]++
+			}
+		}
+	}
+	for c := range count {
+		for v, n := range count[c] {
+			if n != 1 || (!strict[c] && (uniq[c] == nil || !uniq[c][v])) {
+				delete(g.owner[c], v)
+			}
+		}
+	}
+	return g
+}
+
+// queueOK: the entries waiting in channel c can still come out in an order that agrees with the reported
+// logs (each reporter receives its values of channel c in the order it logged them)
+func (g *guide) queueOK(s *mstate, c int) bool {
+	if g == nil || g.owner == nil {
+		return true
+	}
+	var ptr [16]int
+	var set [16]bool
+	for _, e := range s.chs[c].q {
+		if e.v.null {
+			continue
+		}
+		ow, ok := g.owner[c][e.v.z]
+		if !ok {
+			continue
+		}
+		a := ow[0]
+		if a >= len(ptr) {
+			continue
+		}
+		if !set[a] {
+			set[a] = true
+			ptr[a] = g.pre[a][c][s.rs[a].lp]
+		}
+		if ow[1] != ptr[a] {
+			return false
+		}
+		ptr[a]++
+	}
+	return true
 }
 
 func initState(p *Prog) *mstate {
@@ -249,6 +364,9 @@ func (s *mstate) step(i, k int, g *guide, ids map[*Op]int) *mstate {
 			return n
 		}
 		ch.q = append(append([]mentry(nil), ch.q...), mentry{v: veval(r, o.E), from: i})
+		if !g.queueOK(n, o.C) {
+			return nil
+		}
 		return n
 	case "pop":
 		return take(o.C, false)
